@@ -2,9 +2,11 @@
    Statements about the closure operator of the specification (Den.v,
    closure_loop: `E*` on stk is stk followed by closure_loop … [stk] [stk],
    `E+` is closure_loop … [stk] []), for an arbitrary body `step`.
-   `a == b` is stack_eqb; positions are not part of it. *)
+   `a == b` is stack_eqb; positions are not part of it.
+   At the end: the same "at most once" for the op of the engine model
+   (op_tr_closure), whose equality with the specification is tested. *)
 From Coq Require Import ZArith NArith List Bool String.
-From Dwgrep Require Import Radix Value ValueProofs Words Tree Engine Build Den ClosureProofs.
+From Dwgrep Require Import Radix Value ValueProofs Words Tree Engine Build Den ClosureProofs ClosureEngine.
 Import ListNotations.
 Local Open Scope string_scope.
 
@@ -53,6 +55,34 @@ Proof. exact stack_eqb_refl. Qed.
 Print Assumptions C10_eq_sym.
 Print Assumptions C10_eq_trans.
 Print Assumptions C10_eq_refl.
+
+(* ---- the engine model's op_tr_closure ---- *)
+
+(* whatever a pull of the closure op yields is not == to anything in its
+   seen-set, and is put there; the seen-set it is compared against is the one
+   the pull started with, or the empty one if the pull took the next input *)
+Theorem C10_engine_yield_is_fresh : forall P blks f env up inner plus slot seen stks drained c s stk m' c' s' e,
+  EngineM.next P blks f env (MClosure up inner plus slot seen stks drained) c s = Ret (Some stk, m', c', s', e) ->
+  exists up' inner' sl' seen0 stks' dr',
+    m' = MClosure up' inner' plus sl' (stk :: seen0) stks' dr' /\
+    seen_mem stk seen0 = false /\ (seen0 = seen \/ seen0 = []).
+Proof. exact closure_yield_is_fresh. Qed.
+Print Assumptions C10_engine_yield_is_fresh.
+
+(* so the stacks yielded for one input (= the seen-set) are pairwise different, pull after pull *)
+Theorem C10_engine_seen_distinct : forall P blks f env up inner plus slot seen stks drained c s stk m' c' s' e,
+  distinct seen ->
+  EngineM.next P blks f env (MClosure up inner plus slot seen stks drained) c s = Ret (Some stk, m', c', s', e) ->
+  exists up' inner' sl' seen' stks' dr', m' = MClosure up' inner' plus sl' seen' stks' dr' /\ distinct seen' /\ hd_error seen' = Some stk.
+Proof. exact closure_seen_distinct. Qed.
+Print Assumptions C10_engine_seen_distinct.
+
+(* and the op reports the end with nothing remembered *)
+Theorem C10_engine_end_is_clean : forall P blks f env up inner plus slot seen stks drained c s m' c' s' e,
+  EngineM.next P blks f env (MClosure up inner plus slot seen stks drained) c s = Ret (None, m', c', s', e) ->
+  exists up' inner' sl', m' = MClosure up' inner' plus sl' [] [] true.
+Proof. exact closure_end_is_clean. Qed.
+Print Assumptions C10_engine_end_is_clean.
 
 (* non-vacuity: 0 (1 add 3 mod)* in the specification and in the engine model *)
 Example C10_nonvacuous :
